@@ -16,7 +16,7 @@ ASSUMPTIONS = ["at least one row and one column", "declared bounds within the de
 def do_case(ctx, inp):
     p = inp["p"]
     nc = len(p["bnds"])
-    ids = [f"x{j}" for j in range(nc)]
+    ids = inp.get("ids") or [f"x{j}" for j in range(nc)]
     g = real_poly(p, ids)
     if ctx.tags["call-did-not-return"] >= 3:
         ctx.skip("not run: three earlier calls did not return"); return
@@ -118,6 +118,14 @@ def run(ctx):
     n = (1200 if ctx.quick else 8000) * (3 if ctx.search else 1)
     for _ in range(n):
         if ctx.rng.random() < 0.25:
-            do_case(ctx, {"p": gen_chain(ctx.rng, ctx.quick), "chain": True})
+            case = {"p": gen_chain(ctx.rng, ctx.quick), "chain": True}
         else:
-            do_case(ctx, {"p": gen_poly(ctx.rng, ctx.quick, wide=ctx.rng.random() < 0.05)})
+            case = {"p": gen_poly(ctx.rng, ctx.quick, wide=ctx.rng.random() < 0.05)}
+        if ctx.rng.random() < 0.4:
+            # column ids in an order of the caller's own: descending, numbers past ten, mixed case — labels follow the columns,
+            # whatever their order as strings
+            nc_ = len(case["p"]["bnds"])
+            pool = ctx.rng.choice([list("zyxwvutsr"), ["x8", "x9", "x10", "x11", "x12", "x100", "x2", "x1", "x0"],
+                                   ["b", "B", "a", "A", "c", "C", "d", "D", "e"], ["k3", "k1", "k2", "k0", "j9", "j1", "m5", "m4", "m0"]])
+            case["ids"] = pool[:nc_] if ctx.rng.random() < 0.5 else ctx.rng.sample(pool, nc_)
+        do_case(ctx, case)
